@@ -79,6 +79,12 @@ def job_step(kind, n, op, route='ctor'):
                     cad = CAD.OrderedCadence(order=ORDER) if kind == 'ordered' else CAD.Cadence()
                     cad.frames = [ok[s] for s in st]
                     ref = list(cad.frames)
+                    src = None
+                    if route == 'from_cadence':
+                        # the cadence under test was constructed FROM another cadence object (a copy of the list, as
+                        # list(other) would be): what happens to it must not reach the cadence it was made from
+                        src = cad
+                        cad = CAD.Cadence(src)
                     v = None if ob is None else (ok[ob] if ob < 4 else bad[ob - 4])
                     valid = ob is not None and (ob < 4 or (n == 0 and ob - 4 < NBADFRAMES))
                     had = ob is not None and ob < 4 and 'order_label' in v.metadata
@@ -110,7 +116,10 @@ def job_step(kind, n, op, route='ctor'):
                     o = dict(cad=cad, ref=ref, v=v, valid=valid, had=had, res=res, exc=exc, meta_before=meta_before, ob=ob, lab=lab)
                     iv = core.concretize_int(isym) if op in ('insert', 'setitem', 'delitem', 'pop', 'getitem') else 0
                     # judged here, on this path's final state (the pool objects are shared between re-executions)
-                    return judge(kind, op, o, iv, ok), iv
+                    msg = judge(kind, op, o, iv, ok)
+                    if not msg and src is not None and not (len(src.frames) == len(ref) and all(x is y for x, y in zip(src.frames, ref))):
+                        msg = f"{op}({iv}) on a cadence constructed from another cadence changed the other one: identity/order there is now {[ok.index(f) if f in ok else '?' for f in src.frames]}"
+                    return msg, iv
                 leaves = core.explore(run, pre, cap=60, catch=())
                 nleaves += len(leaves)
                 conds = []
@@ -301,6 +310,10 @@ def _replay_step_form(p, conv):
     cad = CAD.OrderedCadence(order=ORDER) if p['kind'] == 'ordered' else CAD.Cadence()
     cad.frames = [ok[s] for s in p['state']]
     ref = list(cad.frames)
+    src = None
+    if p.get('route') == 'from_cadence':
+        src = cad
+        cad = CAD.Cadence(src)
     ob, op, i, n = p['ob'], p['op'], conv(p['i']), len(p['state'])
     v = None if ob is None else (ok[ob] if ob < 4 else bad[ob - 4])
     o = dict(cad=cad, ref=ref, v=v, valid=ob is not None and (ob < 4 or (n == 0 and ob - 4 < NBADFRAMES)), had=ob is not None and ob < 4 and 'order_label' in v.metadata,
@@ -329,6 +342,8 @@ def _replay_step_form(p, conv):
     except (TypeError, AttributeError, IndexError) as e:
         o['exc'] = e
     msg = judge(p['kind'], op, o, int(i), ok)
+    if not msg and src is not None and not (len(src.frames) == len(ref) and all(x is y for x, y in zip(src.frames, ref))):
+        msg = f"{op}({int(i)}) on a cadence constructed from another cadence changed the other one: it now holds {[ok.index(f) if f in ok else '?' for f in src.frames]}, before {[ok.index(f) for f in ref]}"
     return bool(msg), msg or 'cadence behaves like the list model'
 
 
@@ -371,6 +386,8 @@ def main():
     for n in (1, 2):
         for op in ('append', 'insert', 'setitem', 'set_order_new'):
             jobs.append(('job_step', ('ordered', n, op, 'from_data')))
+        for op in ('append', 'insert', 'setitem', 'delitem', 'pop'):
+            jobs.append(('job_step', ('plain', n, op, 'from_cadence')))
     ck.run_jobs('props.C18', jobs, timeout_s=1500)
     ck.finish()
 
